@@ -216,6 +216,26 @@ TEncK1 ==
         /\ Ev.derr = FALSE /\ Ev.dec = Ev.msg
   /\ UNCHANGED <<ms, me, us, ue>>
 
+(* key encapsulation, "K all zero: draw again" (family sm9-wrapzero): for klen = 1 the recorder found a nonce r1 whose K is 00 and  *)
+(* offered a spare nonce r2 after it.  The first nonce is skipped entirely: C = [r2]Q_B, K = KDF(C || g^r2 || ID), unwrapping gives K. *)
+TWrapK0 ==
+  /\ IsEvent("wrapk0")
+  /\ LET sc == Chunks(Ev.script)
+         uid == Bytes(Ev.uid)
+         h1 == IF ue.uid = uid /\ ue.hid = Ev.hid THEN ue.h1 ELSE S!HId(uid, Ev.hid)
+         q == S!QEnc(me.pub, h1)
+         c1 == S!KemC(q, BN!Norm(sc[1]))
+         c2 == S!KemC(q, BN!Norm(sc[2]))
+         k1 == S!KemK(B!G1Bytes(c1), Bytes(Ev.w1), uid, Ev.klen)
+         k2 == S!KemK(B!G1Bytes(c2), Bytes(Ev.w2), uid, Ev.klen)
+     IN /\ me # NoMaster /\ Len(sc) = 2 /\ S!NonceOk(sc[1]) /\ S!NonceOk(sc[2])
+        /\ By!AllZero(k1) /\ ~By!AllZero(k2)                    \* what the recorder searched for
+        /\ Ev.err = FALSE /\ Ev.used = 2
+        /\ Ev.out = HexB(S!U1(c2)) /\ Ev.wc = Ev.w2             \* the C that came out belongs to the second nonce: e(C, de_B) = g^r2
+        /\ Ev.key = HexB(k2)
+        /\ Ev.uerr = FALSE /\ Ev.ukey = Ev.key
+  /\ UNCHANGED <<ms, me, us, ue>>
+
 (* ------------------------------------------------------------------ key exchange *)
 AnnexB_RA == "047cba5b19069ee66aa79d490413d11846b9ba76dd22567f809cf23b6d964bb265a9760c99cb6f706343fed05637085864958d6c90902aba7d405fbedf7b781599"
 AnnexB_SK == "c5c13a8f59a97cdeae64f16a2272a9e7"
@@ -255,7 +275,7 @@ TKx ==
   /\ UNCHANGED <<ms, me, us, ue>>
 
 TraceInit == l = 1 /\ ms = NoMaster /\ me = NoMaster /\ us = NoUser /\ ue = NoUser
-TraceNext == TNew \/ TMaster \/ TUser \/ TParse \/ TSign \/ TWrap \/ TEnc \/ TEncK1 \/ TKx
+TraceNext == TNew \/ TMaster \/ TUser \/ TParse \/ TSign \/ TWrap \/ TWrapK0 \/ TEnc \/ TEncK1 \/ TKx
 TraceSpec == TraceInit /\ [][TraceNext]_tvars
 TraceAccepted == TLCGet("stats").diameter = Len(Tr) + 1
 =============================================================================
